@@ -43,7 +43,8 @@ type singleRoundTripper interface {
 
 type roundTripperWithCount struct {
 	cancel  context.CancelFunc
-	dialing chan struct{} // closed as soon as quic.Dial(Early) returned
+	dialCtx context.Context // context of the request that started the dial
+	dialing chan struct{}   // closed as soon as quic.Dial(Early) returned
 	dialErr error
 	conn    quic.EarlyConnection
 	rt      singleRoundTripper
@@ -164,6 +165,11 @@ func (r *RoundTripper) RoundTripOpt(req *http.Request, opt RoundTripOpt) (*http.
 	}
 
 	if cl.dialErr != nil {
+		if shouldRetryDial(cl, req) {
+			// getClient forgets the failed dial and dials again under this
+			// request's context (or joins the dial another waiter has started).
+			return r.RoundTripOpt(req, opt)
+		}
 		r.removeClient(hostname)
 		closeRequestBody(req)
 		return nil, cl.dialErr
@@ -195,6 +201,27 @@ func (r *RoundTripper) RoundTripOpt(req *http.Request, opt RoundTripOpt) (*http.
 		}
 	}
 	return rsp, err
+}
+
+// shouldRetryDial reports whether req, which was waiting for a dial started by
+// another request, should dial again after that dial failed: the dial runs under
+// the context of the request that started it, so when that request is canceled
+// (or its deadline passes) everybody waiting for the same dial sees its context
+// error. A request whose own context is still alive must not fail with somebody
+// else's cancellation. (Same rule as golang.org/x/net/http2's shouldRetryDial.)
+func shouldRetryDial(cl *roundTripperWithCount, req *http.Request) bool {
+	if cl.dialErr == nil || cl.dialCtx == nil {
+		return false
+	}
+	if cl.dialCtx == req.Context() {
+		// Any cancellation has come from this request itself.
+		return false
+	}
+	if !errors.Is(cl.dialErr, context.Canceled) && !errors.Is(cl.dialErr, context.DeadlineExceeded) {
+		return false
+	}
+	// Only retry if the context the dial ran under is done and ours is not.
+	return cl.dialCtx.Err() != nil && req.Context().Err() == nil
 }
 
 // isConnectionError reports whether err says that the QUIC connection as a whole
@@ -314,9 +341,11 @@ func (r *RoundTripper) getClient(ctx context.Context, hostname string, onlyCache
 		if onlyCached {
 			return nil, false, ErrNoCachedConn
 		}
+		dialCtx := ctx
 		ctx, cancel := context.WithCancel(ctx)
 		cl = &roundTripperWithCount{
 			dialing: make(chan struct{}),
+			dialCtx: dialCtx,
 			cancel:  cancel,
 		}
 		go func() {
